@@ -162,6 +162,7 @@ func c09Body(t *testing.T, s *sim.Scn, o *sim.Outcome) {
 	if len(spec) == 0 {
 		spec = []int64{1}
 	}
+	w.CustomPayload = s.Cfg["payload"] == 1 // a chain whose sequencer signs a custom payload (ManagerOptions.SignaturePayloadProvider)
 	blocks, _, err := buildChain(w, spec)
 	if err != nil {
 		o.Count("skipped:proposer-failed", 1)
@@ -406,7 +407,7 @@ func c09Body(t *testing.T, s *sim.Scn, o *sim.Outcome) {
 }
 
 func c09Gen(r *rand.Rand, tier string) *sim.Scn {
-	s := &sim.Scn{Cfg: map[string]int64{"start": r.Int64N(21), "empty": r.Int64N(3), "fmaxpending": []int64{0, 0, 0, 1, 2, 5}[r.IntN(6)]}}
+	s := &sim.Scn{Cfg: map[string]int64{"start": r.Int64N(21), "empty": r.Int64N(3), "fmaxpending": []int64{0, 0, 0, 1, 2, 5}[r.IntN(6)], "payload": int64(r.IntN(4) / 3)}}
 	n := 1 + r.IntN(6)
 	for i := 0; i < n; i++ {
 		v := int64(1 + r.IntN(3))
